@@ -41,6 +41,12 @@ type PkgOpts struct {
 	// FilterProb / IndexProb override the default probabilities (0.25 / 0.12) of block filters and index modules.
 	FilterProb float64
 	IndexProb  float64
+	// FSBProb: probability that the scenario runs on a chain whose first streamable block is not 0 (scenario-level option,
+	// read by the drivers; GenPkg itself only applies FirstStreamable).
+	FSBProb float64
+	// FirstStreamable: explicit initial blocks below it are raised to it; Init[] holds the EFFECTIVE initial block
+	// (an unset initial block means the first streamable block).
+	FirstStreamable uint64
 }
 
 func pick[T any](r *rand.Rand, xs []T) T { return xs[r.Intn(len(xs))] }
@@ -275,6 +281,16 @@ func GenPkg(r *rand.Rand, o PkgOpts) *Pkg {
 		p.Init[name] = init
 		p.Names = append(p.Names, name)
 		mods = append(mods, mod)
+	}
+	if f := o.FirstStreamable; f > 0 {
+		for _, m := range mods {
+			if m.InitialBlock > 0 && m.InitialBlock < f {
+				m.InitialBlock = f
+			}
+			if p.Init[m.Name] < f {
+				p.Init[m.Name] = f
+			}
+		}
 	}
 	p.Maps = maps
 	p.Modules = &pbsubstreams.Modules{Modules: mods}
